@@ -64,8 +64,8 @@ func recoverClass(f func() string) (out string) {
 }
 
 type corrCase struct {
-	op   string            // driver line
-	impl func() string     // real code, canonical output
+	op   string                 // driver line
+	impl func() string          // real code, canonical output
 	cmp  func(m, i string) bool // nil = exact
 }
 
